@@ -7,5 +7,6 @@ INVARIANT SingleOwner
 INVARIANT RoutesAgree
 INVARIANT ExactlyOneOutcome
 INVARIANT MergeLaw
+INVARIANT PairKeyed
 INVARIANT Export
 CHECK_DEADLOCK FALSE
